@@ -11,6 +11,7 @@ import (
 	"fmt"
 	"os"
 	"path/filepath"
+	"strings"
 	"time"
 
 	"servitor/config"
@@ -85,6 +86,13 @@ func uiPart(r *ev.Report) {
 		{"markdown", "text/markdown", "see [first](https://l.example/m1) and ![pic](https://l.example/m2) and <https://l.example/m3>"},
 		{"gemtext", "text/gemini", "text\n=> https://l.example/g1 first\n=> https://l.example/g2\n"},
 		{"plain", "text/plain", "see https://l.example/p1 and https://l.example/p2 there"},
+		{"html-twelve", "text/html", func() string {
+			var b strings.Builder
+			for i := 1; i <= 10; i++ {
+				fmt.Fprintf(&b, `<a href="https://l.example/t%d">link %d</a> `, i, i)
+			}
+			return "<p>" + b.String() + "</p>"
+		}()},
 	}
 	heldBroken := false
 	for _, doc := range docs {
@@ -132,6 +140,14 @@ func uiPart(r *ev.Report) {
 			os.Remove(dump)
 			d.Keys(ks)
 			expect(c, readDump(dump), k)
+			// (1b) the same number written with leading zeros is the same number
+			for _, zeros := range []string{"0", "00"} {
+				c.History = "leading-" + zeros
+				os.Remove(dump)
+				d.Keys(zeros + ks)
+				expect(c, readDump(dump), k)
+				r.Eval(1)
+			}
 			// (2) after a cancelled number and a cancelled command
 			c.History = "after-cancel"
 			os.Remove(dump)
